@@ -731,8 +731,27 @@ impl<'a> G<'a> {
                         self.mcount += 1;
                         let tag = format!("fe{}", self.mcount);
                         let mut body = vec![Exec::Mark(tag, vec![Expr::Var("it".into()), Expr::Var("ix".into())])];
+                        // the array lives in the data model and the body replaces it while the loop runs: the loop
+                        // iterates over (a shallow copy of) the value the array had when the <foreach> started
+                        let live = matches!(arr, Expr::Array(_)) && self.rng.chance(1, 3);
+                        if live {
+                            let repl: Vec<Expr> = (0..self.rng.below(4)).map(|_| Expr::Int(10 + self.rng.below(9) as i64)).collect();
+                            let change = Exec::Assign { loc: "q".into(), expr: Expr::Array(repl) };
+                            if self.rng.chance(1, 2) {
+                                body.push(change);
+                            } else {
+                                // only in one of the iterations
+                                let k = self.rng.below(3) as i64;
+                                body.push(Exec::If { arms: vec![(Expr::Eq(Box::new(Expr::Var("ix".into())), Box::new(Expr::Int(k))), vec![change])], els: None });
+                            }
+                        }
                         body.extend(self.content(depth + 1, 1));
-                        Exec::Foreach { array: arr, item: "it".into(), index: Some("ix".into()), body }
+                        if live {
+                            out.push(Exec::Assign { loc: "q".into(), expr: arr });
+                            Exec::Foreach { array: Expr::Var("q".into()), item: "it".into(), index: Some("ix".into()), body }
+                        } else {
+                            Exec::Foreach { array: arr, item: "it".into(), index: Some("ix".into()), body }
+                        }
                     }
                 }
                 4 => {
@@ -865,6 +884,13 @@ impl<'a> G<'a> {
             if self.rng.chance(1, 3) {
                 collect_descendants(c, &mut cands);
             }
+        }
+        // a compound state may also name its own history pseudo-state as initial target: entering the state by
+        // default then goes through the history (its default transition with its content the first time, the
+        // recorded configuration later)
+        let hist: Vec<String> = node.children.iter().filter(|c| c.kind.is_history()).map(|c| c.id.clone()).collect();
+        if !hist.is_empty() && self.rng.chance(1, 3) {
+            return vec![self.rng.pick(&hist).clone()];
         }
         vec![self.rng.pick(&cands).clone()]
     }
@@ -1019,6 +1045,7 @@ pub fn generate(rng: &mut Rng, p: &Profile, name: &str) -> Doc {
     if p.dm != Dm::Null {
         decls.push(DataDecl { id: "it".into(), expr: Some(Expr::Int(0)) });
         decls.push(DataDecl { id: "ix".into(), expr: Some(Expr::Int(0)) });
+        decls.push(DataDecl { id: "q".into(), expr: Some(Expr::Array(vec![])) });
     }
     root.data = decls;
     if late {
